@@ -303,12 +303,14 @@ def do_rc4(case):
 
 
 def do_des3(case):
-    key, iv = prg("dk%d" % case["s"], 24), prg("di%d" % case["s"], 8)
+    # (16-byte keys: two-key triple DES, K3 = K1)
+    kl = case.get("kl", 24)
+    key, iv = prg("dk%d" % case["s"], kl), prg("di%d" % case["s"], 8)
     pt = prg("dp%d" % case["s"], 8 * case["nblocks"])
     c = python_tripledes.new(bytearray(key), bytearray(iv))
     parts = chunks(pt, case["cuts"], 8)
     ct = b"".join(bytes(c.encrypt(bytearray(p))) for p in parts)
-    want = rr.des3_cbc(key, iv, pt, True)
+    want = rr.des3_cbc(key if kl == 24 else key + key[:8], iv, pt, True)
     if ct != want:
         return _res(case, False, True, "3des encrypt differs", "encrypt")
     d = python_tripledes.new(bytearray(key), bytearray(iv))
@@ -593,7 +595,8 @@ def cases(draw, tier):
         c.update(kl=draw(st.sampled_from([16, 17, 32, 256])), n=draw(lens),
                  cuts=draw(cuts))
     elif f == "des3":
-        c.update(nblocks=draw(st.integers(1, 5)), cuts=draw(cuts))
+        c.update(nblocks=draw(st.integers(1, 5)), cuts=draw(cuts),
+                 kl=draw(st.sampled_from([24, 24, 16])))
     elif f == "hmac":
         c.update(alg=draw(st.sampled_from(["md5", "sha1", "sha256",
                                            "sha384"])),
